@@ -11,7 +11,9 @@ import itertools, json, multiprocessing as mp, shutil, time
 from vlib.common import rl, scratch_dir
 
 PREDS = ['k = %d', 'k < %d', 'k <= %d', 'k > %d', 'k >= %d', '%d = k', '%d < k', '%d >= k']
-TWO = ['k >= 0 AND k < 2', 'k > 0 AND k <= 2', 'k >= 1 AND k <= 1', 'k > 0 AND v >= 0', 'k > 2', 'k < 0', 'k >= 1 AND v <> 1']
+TWO = ['k >= 0 AND k < 2', 'k > 0 AND k <= 2', 'k >= 1 AND k <= 1', 'k > 0 AND v >= 0', 'k > 2', 'k < 0', 'k >= 1 AND v <> 1',
+       # half-open ranges over adjacent integers, degenerate and contradictory ranges
+       'k > 0 AND k <= 1', 'k >= 1 AND k < 2', 'k > 1 AND k <= 2', 'k >= 0 AND k < 1', 'k > 1 AND k < 2', 'k > 1 AND k < 0', 'k >= 2 AND k <= 0']
 
 
 def queries():
